@@ -18,14 +18,14 @@ Ratios == {<<1, 1>>, <<2, 3>>, <<3, 2>>}
 \* VoD audio segment grids of a frames: one segment, every split in two, (thorough) every split in three
 Splits2(a) == {<<a>>} \cup {<<x, a - x>> : x \in 1..(a - 1)}
 Splits3(a) == Splits2(a) \cup {<<x, y, a - x - y>> : x \in 1..(a - 2), y \in 1..(a - 2)}
-\* every segment starts inside the VoD audio (position in the loop's grid < A): the other layouts are the *_gap configurations
+\* every segment starts inside the VoD audio (position in the loop's grid < A): the other layouts (LayoutsGap) need commit 9a9f787
 Covered(s, a) == \A kk \in 0..(a.M - 1), ii \in 0..(s.N - 1) :
    LET x == VOff(s, a, kk, ii) IN (UpF(a, x) - UpF(a, (x \div L(s)) * L(s))) \div a.F < a.A
 Mk(d, v, f, r, da, three, cov) ==
    LET s == MkSc(d, v, 30)
        a == MkAu(s, f, r[1], r[2], da)
    IN IF a.A <= 0 \/ (cov /\ ~Covered(s, a)) THEN {} ELSE { <<s, a, g>> : g \in { q \in (IF three THEN Splits3(a.A) ELSE Splits2(a.A)) : \A x \in 1..Len(q) : q[x] > 0 } }
-\* audio at least as long as the start of the last video segment (shorter audio: see C03 report, layouts *_gap)
+\* LayoutsQuick/Thorough/Vod0: every segment starts inside the VoD audio; LayoutsGap: VoD audio 1-2 frames short, segments of pure padding
 LayoutsQuick == UNION { Mk(d, 0, f, r, da, FALSE, TRUE) : d \in Seqs1 \cup Seqs2, f \in {2, 3}, r \in Ratios, da \in {-1, 0, 1} }
 LayoutsThorough == UNION ({ Mk(d, 0, f, r, da, TRUE, TRUE) : d \in Seqs1 \cup Seqs2, f \in {2, 3}, r \in Ratios, da \in {-1, 0, 1, 2} }
                           \cup { Mk(d, 0, f, r, da, FALSE, TRUE) : d \in Seqs3, f \in {2, 3}, r \in Ratios, da \in {-1, 0, 1} })
